@@ -1,7 +1,7 @@
 """C08 — TLV models encode to exact, minimal TLV and decode back (structural part). DESIGN §4 C08."""
 import ast
 
-from .common import ctx, returns, calls_in_ctx, reach_from_succ, site, srcs_text
+from .common import ctx, returns, calls_in_ctx, reach_from_succ, site, srcs_text, stale_measures
 from ..flow import callee_attr
 from ..linexpr import show, NotLinear
 from ..loader import AnalysisError, norm
@@ -121,6 +121,130 @@ def size_rules(R, prefix):
                 R.fail(prefix + '.SIZ.1b', inst, qe, 'def encode_into', f'{cls}: encoded_length iterates {la} but encode_into iterates {lb} (or different element methods)', fe.loc())
 
 
+def stale_rule(R, prefix):
+    """SIZ.1c over every function that sizes a length number"""
+    P = R.P
+    R.ob(prefix + '.SIZ.1c', 'a length number is sized (get_tl_num_size) on the value finally announced: no redefinition of the measured variable between '
+                             'the measurement and a return that depends on it')
+    n = 0
+    for q, f in sorted(P.funcs.items()):
+        if not (f.mod.startswith('ndn.encoding.') or f.mod in ('ndn.appv2', 'ndn.app_support.security_v2', 'ndn.app_support.nfd_mgmt')):
+            continue
+        if isinstance(f.node, ast.Lambda) or not any(isinstance(c, ast.Call) and callee_attr(c) == 'get_tl_num_size' or
+                                                      isinstance(c, ast.Call) and isinstance(c.func, ast.Name) and c.func.id == 'get_tl_num_size'
+                                                      for c in ast.walk(f.node)):
+            continue
+        if q.endswith('tlv_var.get_tl_num_size'):
+            continue
+        cx = ctx(R, q)
+        n += 1
+        bad = stale_measures(cx)
+        inst = q + ' :: length sized on the announced value'
+        if bad:
+            for (c, v, r) in bad:
+                R.fail(prefix + '.SIZ.1c', inst, q, c, f'`{ast.unparse(c)}` sizes `{v}` before `{v}` is changed again; the value returned by '
+                       f'`{norm(r.ast)}` uses the later `{v}`: the Length number may need more bytes than were reserved', site(cx, c))
+        else:
+            R.ok(prefix + '.SIZ.1c', inst, site(cx, cx.f.node))
+    R.minimum(prefix + '.SIZ.1c', 12)
+
+
+MUTATORS = {'append', 'extend', 'insert', 'update', 'setdefault', 'add', 'pop', 'clear', 'remove'}
+
+
+def _fresh(e):
+    return (isinstance(e, (ast.List, ast.Dict, ast.Set)) and not (getattr(e, 'elts', None) or getattr(e, 'keys', None))) or \
+        (isinstance(e, ast.Call) and isinstance(e.func, ast.Name) and e.func.id in ('list', 'dict', 'set', 'OrderedDict') and not e.args)
+
+
+def _mutable_literal(e):
+    return isinstance(e, (ast.List, ast.Dict, ast.Set, ast.ListComp, ast.DictComp, ast.SetComp)) or \
+        (isinstance(e, ast.Call) and isinstance(e.func, ast.Name) and e.func.id in ('list', 'dict', 'set', 'bytearray', 'OrderedDict'))
+
+
+def ownership_rule(R, oid):
+    """a container that a decoder fills in place belongs to the instance being decoded (never to the field descriptor, which is
+    shared by every instance of the model class)"""
+    P = R.P
+    n_mut = 0
+    for cls in FIELD_CLASSES:
+        for meth in ('parse_from', 'parse_value'):
+            q = f'{TM}.{cls}.{meth}'
+            if q not in P.funcs:
+                continue
+            cx = ctx(R, q)
+            # locals bound to self.get_value(instance) / self.__get__(instance, ...) that are mutated in place
+            holders = {}
+            for n in cx.cfg.nodes:
+                for (nm, v) in cx.cfg.defs_of(n):
+                    if isinstance(v, ast.Call) and callee_attr(v) in ('get_value', '__get__') and ast.unparse(v.func.value) == 'self':
+                        holders[nm] = v
+                    elif isinstance(v, ast.Attribute) and ast.unparse(v) == 'self.default':
+                        holders[nm] = v
+            mutated = set()
+            for n in cx.cfg.nodes:
+                for c in n.calls():
+                    if callee_attr(c) in MUTATORS and isinstance(c.func.value, ast.Name) and c.func.value.id in holders:
+                        mutated.add(c.func.value.id)
+                if n.kind == 'stmt' and isinstance(n.ast, (ast.Assign, ast.AugAssign)):
+                    for t in (n.ast.targets if isinstance(n.ast, ast.Assign) else [n.ast.target]):
+                        if isinstance(t, ast.Subscript) and isinstance(t.value, ast.Name) and t.value.id in holders:
+                            mutated.add(t.value.id)
+            for nm in sorted(mutated):
+                n_mut += 1
+                inst = f'{q} :: `{nm}` filled in place'
+                src = holders[nm]
+                if isinstance(src, ast.Attribute):
+                    R.fail(oid, inst, q, src, f'{cls}.{meth} fills `self.default` in place: every instance of the model class shares it', site(cx, src))
+                    continue
+                gm = P.find_member(TM, cls, 'get_value')
+                if gm is None or gm[0] != 'method':
+                    raise AnalysisError(f'{cls}.get_value not resolved')
+                gq = f'{gm[1]}.{gm[2]}.get_value'
+                gx = ctx(R, gq)
+                rets = returns(gx)
+                inst_param = gx.f.node.args.args[1].arg if len(gx.f.node.args.args) > 1 else 'instance'
+                slot = f'{inst_param}.__dict__[self.name]'
+                own = all(r.ast.value is not None and ast.unparse(r.ast.value) == slot for r in rets) and bool(rets)
+                fresh = [n for n in gx.cfg.nodes if n.kind == 'stmt' and isinstance(n.ast, ast.Assign) and ast.unparse(n.ast.targets[0]) == slot]
+                shared = any('self.default' in ast.unparse(r.ast.value) for r in rets if r.ast.value is not None)
+                if own and fresh and all(_fresh(n.ast.value) for n in fresh) and not shared:
+                    R.ok(oid, inst, site(gx, gx.f.node), f'{gq} creates a fresh container per instance')
+                else:
+                    R.fail(oid, inst, gq, 'def get_value', f'{cls}.{meth} fills the container returned by {gq} in place, but that method may hand out '
+                           'an object stored on the field (`self.default`) or not owned by the instance: all decoded instances of a model class then share one '
+                           'container', site(gx, gx.f.node))
+    R.need(n_mut >= 2, f"only {n_mut} in-place container fills found in the Field decoders (RepeatedField.parse_from, MapField.parse_value confirmed)")
+    # no Field class stores a mutable literal as its default
+    for cls in FIELD_CLASSES + ['Field']:
+        q = f'{TM}.{cls}.__init__'
+        if q not in P.funcs:
+            continue
+        cx = ctx(R, q)
+        inst = f'{q} :: default is not a shared mutable object'
+        bad = None
+        for (n, c) in calls_in_ctx(cx, attr='__init__'):
+            for a in list(c.args) + [k.value for k in c.keywords]:
+                if _mutable_literal(a):
+                    bad = a
+        for n in cx.cfg.nodes:
+            if n.kind == 'stmt' and isinstance(n.ast, ast.Assign) and ast.unparse(n.ast.targets[0]) == 'self.default' and _mutable_literal(n.ast.value):
+                bad = n.ast.value
+        for d in cx.f.node.args.defaults + [d for d in cx.f.node.args.kw_defaults if d is not None]:
+            if _mutable_literal(d):
+                bad = d
+        if bad is not None:
+            gm = P.find_member(TM, cls, 'get_value')
+            gx = ctx(R, f'{gm[1]}.{gm[2]}.get_value') if gm and gm[0] == 'method' else None
+            if gx is not None and not any('self.default' in ast.unparse(r.ast.value) for r in returns(gx) if r.ast.value is not None):
+                R.ok(oid, inst, site(cx, cx.f.node), 'mutable default never handed out')
+                continue
+        if bad is not None:
+            R.fail(oid, inst, q, bad, f'{cls} stores the mutable object `{ast.unparse(bad)}` as the field default: it is one object per field, handed to every instance', site(cx, bad))
+        else:
+            R.ok(oid, inst, site(cx, cx.f.node))
+
+
 def run(R):
     P = R.P
     M = models_of(P)
@@ -157,6 +281,7 @@ def run(R):
         R.fail('C08.TBL.2', inst, ue.qual, 'def encoded_length', 'negative values are not refused', site(ue, ue.f.node))
     # ------------------------------------------------------------------ SIZ.1
     size_rules(R, 'C08')
+    stale_rule(R, 'C08')
     # ------------------------------------------------------------------ LOP.1
     R.ob('C08.LOP.1', 'encoded_length, encode and parse walk the same _encoded_fields list in order; the metaclass collects fields in class-body order')
     for meth in ('encoded_length', 'encode', '__eq__'):
@@ -250,6 +375,8 @@ def run(R):
     from .c07 import scan_loop_rules, map_value_rule
     R.ob('C08.TBL.3', 'decoding: unknown non-critical elements are skipped anywhere; unknown / repeated / out-of-order critical ones raise DecodeError')
     scan_loop_rules(R, 'C08.TBL.3')
+    R.ob('C08.PRV.1', 'a container filled in place by a decoder is created per instance (get_value never hands out storage kept on the shared field descriptor)')
+    ownership_rule(R, 'C08.PRV.1')
     R.ob('C08.MPT.1', 'the value element of a map entry is type-checked before it is parsed as the value')
     map_value_rule(R, 'C08.MPT.1')
     R.assumptions += ['struct format widths B/H/I/Q = 1/2/4/8', 'equality after decode for all values and generated model classes is not decided']
